@@ -192,6 +192,20 @@ def ref_apply(g: Grid, op: dict) -> None:
             g.pad_row(r, x)
             r[x:x + 1] = [cell]
             g.upd(r)
+    elif k == "rstrip":
+        def emp(c):
+            return c[0] is None and (op["aggr"] or c[1] is None)
+        while g.rows and all(emp(c) for c in g.rows[-1]):
+            g.rows.pop()
+        for r in g.rows:
+            while r and emp(r[-1]):
+                r.pop()
+        g.ncols = min(g.ncols, max([len(r) for r in g.rows], default=0))
+    elif k == "transpose":
+        w = max([len(r) for r in g.rows], default=0)
+        n = len(g.rows)
+        g.rows = [[(r[i] if i < len(r) else EMPTY) for r in g.rows] for i in range(w)]
+        g.ncols = max(1, n) if g.rows else 0
     elif k == "read":
         pass
     else:
@@ -201,7 +215,7 @@ def ref_apply(g: Grid, op: dict) -> None:
     # (the code does it whenever a row is appended at the end of a table without columns; a row
     # inserted in the middle of a column-less table - a state only reachable by deleting the last
     # column - declares nothing)
-    appended = len(g.rows) > H and not (k == "insert_row" and norm(op["y"], H) < H)
+    appended = len(g.rows) > H and k not in ("transpose", "rstrip") and not (k == "insert_row" and norm(op["y"], H) < H)
     if appended and g.ncols == 0:
         g.ncols = 1
 
@@ -335,6 +349,10 @@ def impl_apply(t, op: dict) -> None:
         t.set_row_cells(op["y"], [mk_cell(c, rep) for c, rep in op["line"]])
     elif k == "set_column_values":
         t.set_column_values(op["x"], [c[0] for c in op["cells"]])
+    elif k == "rstrip":
+        t.rstrip(aggressive=op["aggr"])
+    elif k == "transpose":
+        t.transpose()
     elif k == "read":
         do_read(t, op)
     else:
